@@ -272,7 +272,18 @@ struct Runner {
             x += "<mechanisms xmlns='urn:ietf:params:xml:ns:xmpp-sasl'>" + mechList(f["mechs"].toString()) + "</mechanisms>";
         }
         if (f["s2"].toString() != "none") {
-            x += "<authentication xmlns='urn:xmpp:sasl:2'>" + mechList(f["s2"].toString()) + "</authentication>";
+            QByteArray inl;
+            auto b2 = f["b2"].toString();
+            if (b2 == "plain") {
+                inl += "<bind xmlns='urn:xmpp:bind:0'/>";
+            } else if (b2 == "sm") {
+                inl += "<bind xmlns='urn:xmpp:bind:0'><inline><feature var='urn:xmpp:sm:3'/></inline></bind>";
+            }
+            if (f["r2"].toBool()) {
+                inl += "<sm xmlns='urn:xmpp:sm:3'/>";
+            }
+            x += "<authentication xmlns='urn:xmpp:sasl:2'>" + mechList(f["s2"].toString()) +
+                (inl.isEmpty() ? QByteArray() : "<inline>" + inl + "</inline>") + "</authentication>";
         }
         if (f["legacy"].toBool()) {
             x += "<auth xmlns='http://jabber.org/features/iq-auth'/>";
@@ -374,7 +385,24 @@ struct Runner {
         } else if (k == "Challenge") {
             x = "<challenge xmlns='urn:ietf:params:xml:ns:xmpp-sasl'>" + scramChallenge(saslPayload, s["good"].toBool()) + "</challenge>";
         } else if (k == "Success2") {
-            x = "<success xmlns='urn:xmpp:sasl:2'><authorization-identifier>me@example.org/qxv</authorization-identifier></success>";
+            QByteArray inner;
+            auto bnd = s["bnd"].toString();
+            if (bnd == "plain") {
+                inner += "<bound xmlns='urn:xmpp:bind:0'/>";
+            } else if (bnd == "enabled") {
+                inner += "<bound xmlns='urn:xmpp:bind:0'><enabled xmlns='urn:xmpp:sm:3' id='qxv-sm' resume='true'/></bound>";
+            } else if (bnd == "enabledNoResume") {
+                inner += "<bound xmlns='urn:xmpp:bind:0'><enabled xmlns='urn:xmpp:sm:3' id='qxv-sm'/></bound>";
+            } else if (bnd == "smfailed") {
+                inner += "<bound xmlns='urn:xmpp:bind:0'><failed xmlns='urn:xmpp:sm:3'><internal-server-error xmlns='urn:ietf:params:xml:ns:xmpp-stanzas'/></failed></bound>";
+            }
+            auto res = s["res"].toString();
+            if (res == "resumed") {
+                inner += "<resumed xmlns='urn:xmpp:sm:3' h='0' previd='qxv-sm'/>";
+            } else if (res == "failed") {
+                inner += "<failed xmlns='urn:xmpp:sm:3'><item-not-found xmlns='urn:ietf:params:xml:ns:xmpp-stanzas'/></failed>";
+            }
+            x = "<success xmlns='urn:xmpp:sasl:2'><authorization-identifier>me@example.org/qxv</authorization-identifier>" + inner + "</success>";
         } else if (k == "Failure2") {
             x = "<failure xmlns='urn:xmpp:sasl:2'><not-authorized xmlns='urn:ietf:params:xml:ns:xmpp-sasl'/></failure>";
         } else if (k == "Challenge2") {
